@@ -1,2 +1,53 @@
+//! The `body(Σ,L)` family as cases (one module per body) and as batches.
+
 use crate::core::*;
-pub fn cases(_args: &Args, _ev: &mut Ev) -> Vec<Case> { vec![] }
+use serde_json::json;
+use std::sync::Mutex;
+use wgen::body::*;
+
+/// enumerate all members with length <= max_len, in parallel over the first token
+pub fn enumerate_all(max_len: usize, threads: usize) -> (Vec<Vec<u8>>, u64) {
+    let alpha = alphabet();
+    let firsts: Vec<usize> = (0..alpha.len()).collect();
+    let total = Mutex::new(0u64);
+    let (res, _) = pmap(&firsts, threads, None, |f| {
+        let (m, v) = enumerate(&alpha, max_len, Some(*f));
+        *total.lock().unwrap() += v;
+        m
+    });
+    let mut out = vec![];
+    for r in res.into_iter().flatten() {
+        out.extend(r);
+    }
+    // simplest first
+    out.sort_by(|a, b| a.len().cmp(&b.len()).then(a.cmp(b)));
+    let v = *total.lock().unwrap();
+    (out, v)
+}
+
+pub fn max_len(args: &Args) -> usize {
+    if args.tier == Tier::Quick {
+        4
+    } else {
+        5
+    }
+}
+
+pub fn cases(args: &Args, ev: &mut Ev) -> Vec<Case> {
+    let alpha = alphabet();
+    let l = max_len(args);
+    let (seqs, validations) = enumerate_all(l, args.threads);
+    let nt = seqs.iter().filter(|s| nontrivial(&alpha, s)).count();
+    ev.extra.insert(
+        "body_family".into(),
+        json!({"alphabet": alpha.len(), "max_len": l, "members": seqs.len(), "with_special_construct": nt, "validator_calls_during_enumeration": validations}),
+    );
+    seqs.iter()
+        .map(|s| Case {
+            family: "body".into(),
+            coords: show(&alpha, s),
+            wasm: scaffold(&[body_bytes(&alpha, s)]),
+            cfg: json!({}),
+        })
+        .collect()
+}
